@@ -11,11 +11,13 @@
 package main
 
 import (
+	"bytes"
 	"encoding/json"
 	"flag"
 	"fmt"
 	"hash/fnv"
 	"os"
+	"os/exec"
 	"sort"
 	"time"
 
@@ -67,6 +69,7 @@ type WorkerOut struct {
 	WallS      float64           `json:"wall_s"`
 	DetChecks  uint64            `json:"determinism_rechecks"`
 	DetFail    string            `json:"determinism_failure,omitempty"`
+	NonRepeat  uint64            `json:"non_repeating_runs,omitempty"`
 	Globals    []string          `json:"globals"`
 	FirstIdx   uint64            `json:"first_index"`
 	LastIdx    uint64            `json:"last_index"`
@@ -78,6 +81,7 @@ type WorkerOut struct {
 	// pristine library, exactly as its replay will.
 	RestartFrom uint64 `json:"restart_from,omitempty"`
 	Restarts    uint64 `json:"restarts,omitempty"`
+	SegFrom     uint64 `json:"segment_from"`
 }
 
 func progHash(run *work.Run) uint64 {
@@ -214,7 +218,11 @@ func worker(args []string) {
 	replayOut := fs.String("replay-out", "", "where to write the raw replay file of a violation")
 	nsamples := fs.Int("samples", 0, "number of sample runs to include in the output")
 	hashes := fs.Bool("hashes", false, "emit per-run trace hashes (determinism self-test)")
+	until := fs.Uint64("until", 0, "session replay: ignore the budget and stop after executing this run index")
 	fs.Parse(args)
+	if *until > 0 {
+		*budget = 24 * time.Hour
+	}
 
 	sites := loadSites(*sitesPath)
 	start := time.Now()
@@ -229,12 +237,12 @@ func worker(args []string) {
 		os.Exit(2)
 	}
 	g := work.CaptureGlobals()
-	out := &WorkerOut{Prop: *prop, Build: *build, Stats: work.NewStats(), Policies: map[string]uint64{}, Globals: g.Names(), FirstIdx: *from}
+	out := &WorkerOut{Prop: *prop, Build: *build, Stats: work.NewStats(), Policies: map[string]uint64{}, Globals: g.Names(), FirstIdx: *from, SegFrom: *from}
 	distinct := map[uint64]bool{}
 	detR := prng.New(prng.Mix(*seed, 0xde7) ^ *from)
 
 	for idx := *from; out.Runs < *maxRuns; idx += *stride {
-		if time.Since(start) > *budget {
+		if time.Since(start) > *budget || (*until > 0 && idx > *until) {
 			break
 		}
 		run := generate(*prop, *seed, idx, *build, sites)
@@ -294,8 +302,18 @@ func worker(args []string) {
 			run2 := generate(*prop, *seed, idx, *build, sites)
 			res2 := work.Exec(run2, ar, va, g, sites)
 			out.DetChecks++
-			if res2.Incon != nil || res2.Violation != nil || res2.Stats.TraceHash != res.Stats.TraceHash || res2.Stats.ObsHash != res.Stats.ObsHash || res2.Stats.Steps != res.Stats.Steps || progHash(run2) != ph || res2.Stats.Observes != res.Stats.Observes {
-				out.DetFail = fmt.Sprintf("run %d did not repeat: steps %d vs %d, trace %x vs %x", idx, res.Stats.Steps, res2.Stats.Steps, res.Stats.TraceHash, res2.Stats.TraceHash)
+			if progHash(run2) != ph {
+				// the generator itself is not a function of (seed, index): harness fault
+				out.DetFail = fmt.Sprintf("run %d: generation did not repeat", idx)
+				break
+			}
+			if res2.Incon != nil || res2.Violation != nil || res2.Stats.TraceHash != res.Stats.TraceHash || res2.Stats.ObsHash != res.Stats.ObsHash || res2.Stats.Steps != res.Stats.Steps || res2.Stats.Observes != res.Stats.Observes {
+				// the same explicit run did not repeat inside this process: the
+				// library carries state from call to call that the package-state
+				// comparison does not see. Not a verdict; continue in a fresh process
+				// so that every run still starts from a pristine library.
+				out.NonRepeat++
+				out.RestartFrom = idx + *stride
 				break
 			}
 		}
@@ -316,7 +334,20 @@ func worker(args []string) {
 }
 
 // ReplayFile is the on-disk format of a violation.
+// Session describes a replay that needs more than one run: the violating run
+// only fails after the runs that preceded it in the same process (state hidden
+// inside the library that the pristine-state comparison cannot see).
+type Session struct {
+	Prop   string `json:"prop"`
+	Seed   uint64 `json:"seed"`
+	From   uint64 `json:"from"`
+	Stride uint64 `json:"stride"`
+	Until  uint64 `json:"until"`
+	Build  string `json:"build"`
+}
+
 type ReplayFile struct {
+	Session   *Session        `json:"session,omitempty"`
 	Run       *work.Run       `json:"run"`
 	Violation *work.Violation `json:"violation,omitempty"`
 	Note      string          `json:"note,omitempty"`
@@ -334,9 +365,25 @@ func replay(args []string) {
 		os.Exit(2)
 	}
 	var rf ReplayFile
-	if err := json.Unmarshal(raw, &rf); err != nil || rf.Run == nil {
+	if err := json.Unmarshal(raw, &rf); err != nil || (rf.Run == nil && rf.Session == nil) {
 		fmt.Fprintln(os.Stderr, "bad replay file:", err)
 		os.Exit(2)
+	}
+	if rf.Session != nil {
+		v, err := runSession(os.Args[0], *sitesPath, rf.Session)
+		switch {
+		case err != nil:
+			fmt.Fprintln(os.Stderr, err)
+			fmt.Println("INCONCLUSIVE")
+			os.Exit(2)
+		case v == nil:
+			fmt.Println("OK")
+			return
+		}
+		j, _ := json.MarshalIndent(v, "", " ")
+		fmt.Println(string(j))
+		fmt.Println("SIG " + v.Sig)
+		os.Exit(1)
 	}
 	sites := loadSites(*sitesPath)
 	ar, err := arena.New(1024)
@@ -370,4 +417,28 @@ func replay(args []string) {
 		fmt.Println("SIG " + res.Violation.Sig)
 	}
 	os.Exit(1)
+}
+
+// runSession re-executes a worker segment in a fresh process and returns the
+// violation it ends with, if any.
+func runSession(bin, sites string, ss *Session) (*work.Violation, error) {
+	a := []string{"worker", "-prop", ss.Prop, "-seed", fmt.Sprint(ss.Seed), "-from", fmt.Sprint(ss.From), "-stride", fmt.Sprint(ss.Stride),
+		"-until", fmt.Sprint(ss.Until), "-build", ss.Build}
+	if sites != "" {
+		a = append(a, "-sites", sites)
+	}
+	cmd := exec.Command(bin, a...)
+	var stdout, stderr bytes.Buffer
+	cmd.Stdout, cmd.Stderr = &stdout, &stderr
+	if err := cmd.Run(); err != nil {
+		return nil, fmt.Errorf("session worker: %v: %s", err, tail(stderr.String(), 500))
+	}
+	var wo WorkerOut
+	if err := json.Unmarshal(stdout.Bytes(), &wo); err != nil {
+		return nil, err
+	}
+	if wo.Violation == nil || wo.LastIdx != ss.Until {
+		return nil, nil
+	}
+	return wo.Violation, nil
 }
